@@ -320,7 +320,7 @@ def run(ck, m):
     canonical = "map(mul, self.rendered_size, (1, not scroll))" in norm(rn) and "map(gt," in norm(rn)
     explicit = None
     if not canonical and rrs:
-        t0 = next((t for t, b_ in guards(rrs[0]) if b_ and "scroll" in norm(t)), None)
+        t0 = next((t for t, b_ in guards(rrs[0]) if b_ and "scroll" in norm(trace(rn, t))), None)
         if t0 is not None:
             tt = trace(rn, t0)
             RW, RH, TW, TH = "self.rendered_size[0]", "self.rendered_size[1]", "get_terminal_size()[0]", "get_terminal_size()[1]"
